@@ -19,9 +19,9 @@ Inductive WfCtrl : tree -> ctrl -> Prop :=
 Definition op_ok (op : tree) : Prop := tree_class op = Application.
 
 Inductive WfMsg : tree -> N * tree * list ctrl -> Prop :=
-| WM_plain ib op : op_ok op ->
+| WM_plain ib op : op_ok op -> id_ok ib = true ->
     WfMsg (C Universal 16 [P Universal 2 ib; op]) (as_i32 (parse_uint ib), op, [])
-| WM_ctrls ib op cts cs : op_ok op -> Forall2 WfCtrl cts cs ->
+| WM_ctrls ib op cts cs : op_ok op -> id_ok ib = true -> Forall2 WfCtrl cts cs ->
     WfMsg (C Universal 16 [P Universal 2 ib; op; C Context 0 cts]) (as_i32 (parse_uint ib), op, cs).
 
 Lemma parse_control_wf t c : WfCtrl t c -> parse_control t = Ok c.
@@ -31,7 +31,7 @@ Proof. induction 1 as [|t c cts cs Hc _ IH]; cbn; [reflexivity|]. now rewrite (p
 
 Lemma envelope_wf env view : WfMsg env view -> exists tags, env = C Universal 16 tags /\ envelope tags = Ok (Some view).
 Proof.
-  intros [ib op Hop|ib op cts cs Hop Hcs]; eexists; (split; [reflexivity|]); unfold envelope; cbn [rev app].
+  intros [ib op Hop Hid|ib op cts cs Hop Hid Hcs]; eexists; (split; [reflexivity|]); unfold envelope; cbn [rev app].
   - unfold op_ok in Hop. unfold class_eqb. rewrite Hop. cbn. reflexivity.
   - cbn. rewrite (parse_controls_wf _ _ Hcs). reflexivity.
 Qed.
